@@ -23,7 +23,9 @@ import (
 	v1 "k8s.io/api/core/v1"
 	"k8s.io/apimachinery/pkg/api/meta"
 	"k8s.io/apimachinery/pkg/api/resource"
+	metav1 "k8s.io/apimachinery/pkg/apis/meta/v1"
 	"k8s.io/apimachinery/pkg/runtime"
+	"k8s.io/apimachinery/pkg/runtime/schema"
 	"sigs.k8s.io/controller-runtime/pkg/client"
 	"sigs.k8s.io/controller-runtime/pkg/client/interceptor"
 
@@ -242,23 +244,29 @@ func onlyNames(diffs []string, name string) bool {
 
 // ---------------------------------------------------------------- client-boundary monitor
 
-// calls counts what the reconcilers do at the client boundary.
+// calls counts what the reconcilers do at the client boundary. The reconcilers get a client that behaves like the
+// manager's client over an API server: reads return objects with their GroupVersionKind set (the cache reader does
+// that; the bare fake client strips it), List order may be shuffled (the cache's order is a map iteration), and a write
+// request that leaves the stored object unchanged is classified as a no-op request (an API server does not persist it
+// and does not bump resourceVersion; the fake client always bumps it, so resourceVersion is ignored in comparisons).
 type calls struct {
-	Mutating int            // requests that change the store
-	Noop     int            // PATCH requests with an empty body ({}): answered without writing
+	Mutating int            // requests that changed the store
+	Noop     int            // update/patch requests that left the stored object unchanged (incl. empty patches)
+	Failed   int            // mutating requests that returned an error
 	Reads    int            // Get + List
-	ByKind   map[string]int // mutating requests by verb:Kind
-	Log      []string       // mutating requests in order
-	shuffle  *rand.Rand     // when set, List results are returned in a shuffled order
+	ByKind   map[string]int // effective mutating requests by verb:Kind
+	Log      []string       // effective mutating requests in order
+	NoopLog  []string
+	shuffle  *rand.Rand // when set, List results are returned in a shuffled order
 	scheme   *runtime.Scheme
 }
 
 func newCalls(s *runtime.Scheme) *calls { return &calls{ByKind: map[string]int{}, scheme: s} }
 
 func (c *calls) reset() {
-	c.Mutating, c.Noop, c.Reads = 0, 0, 0
+	c.Mutating, c.Noop, c.Reads, c.Failed = 0, 0, 0, 0
 	c.ByKind = map[string]int{}
-	c.Log = nil
+	c.Log, c.NoopLog = nil, nil
 }
 
 func (c *calls) kindOf(o runtime.Object) string {
@@ -266,6 +274,15 @@ func (c *calls) kindOf(o runtime.Object) string {
 		return gvks[0].Kind
 	}
 	return fmt.Sprintf("%T", o)
+}
+
+func (c *calls) setGVK(o runtime.Object) {
+	if _, isMeta := o.(*metav1.PartialObjectMetadata); isMeta {
+		return
+	}
+	if gvks, _, err := c.scheme.ObjectKinds(o); err == nil && len(gvks) > 0 {
+		o.GetObjectKind().SetGroupVersionKind(gvks[0])
+	}
 }
 
 func (c *calls) mut(verb string, o client.Object) {
@@ -277,82 +294,111 @@ func (c *calls) mut(verb string, o client.Object) {
 	}
 }
 
-// kinds returns the mutated kinds, sorted ("verb:Kind").
-func (c *calls) kinds() []string {
-	var ks []string
-	for k := range c.ByKind {
-		ks = append(ks, k)
+func (c *calls) noop(verb string, o client.Object) {
+	c.Noop++
+	if len(c.NoopLog) < 50 {
+		c.NoopLog = append(c.NoopLog, verb+":"+c.kindOf(o)+" "+o.GetNamespace()+"/"+o.GetName())
 	}
-	sort.Strings(ks)
-	return ks
 }
 
-func emptyPatch(p client.Patch, o client.Object) bool {
-	d, err := p.Data(o)
-	if err != nil {
-		return false
-	}
-	s := strings.TrimSpace(string(d))
-	return s == "{}" || s == ""
+// canon is the JSON of an object without resourceVersion and managedFields.
+func canon(o client.Object) string {
+	x := o.DeepCopyObject().(client.Object)
+	x.SetResourceVersion("")
+	x.SetManagedFields(nil)
+	x.GetObjectKind().SetGroupVersionKind(schema.GroupVersionKind{})
+	return mustJSON(x)
 }
 
-// funcs returns the interceptor that counts (and, for empty patches, answers like an API server).
+func stored(ctx context.Context, cl client.Client, o client.Object) string {
+	x := o.DeepCopyObject().(client.Object)
+	if err := cl.Get(ctx, client.ObjectKeyFromObject(o), x); err != nil {
+		return "<absent: " + err.Error() + ">"
+	}
+	return canon(x)
+}
+
+// write runs a mutating request and classifies it by its effect on the stored object.
+func (c *calls) write(ctx context.Context, cl client.Client, verb string, o client.Object, do func() error) error {
+	before := stored(ctx, cl, o)
+	err := do()
+	switch {
+	case err != nil:
+		c.Failed++
+	case stored(ctx, cl, o) == before:
+		c.noop(verb, o)
+	default:
+		c.mut(verb, o)
+	}
+	return err
+}
+
+// funcs returns the interceptor.
 func (c *calls) funcs() interceptor.Funcs {
 	return interceptor.Funcs{
 		Get: func(ctx context.Context, cl client.WithWatch, key client.ObjectKey, obj client.Object, opts ...client.GetOption) error {
 			c.Reads++
-			return cl.Get(ctx, key, obj, opts...)
+			err := cl.Get(ctx, key, obj, opts...)
+			if err == nil {
+				c.setGVK(obj)
+			}
+			return err
 		},
 		List: func(ctx context.Context, cl client.WithWatch, list client.ObjectList, opts ...client.ListOption) error {
 			c.Reads++
 			err := cl.List(ctx, list, opts...)
-			if err == nil && c.shuffle != nil {
-				if items, e := meta.ExtractList(list); e == nil && len(items) > 1 {
-					c.shuffle.Shuffle(len(items), func(i, j int) { items[i], items[j] = items[j], items[i] })
-					_ = meta.SetList(list, items)
-				}
+			if err != nil {
+				return err
+			}
+			items, e := meta.ExtractList(list)
+			if e != nil || len(items) == 0 {
+				return nil
+			}
+			for _, it := range items {
+				c.setGVK(it)
+			}
+			if c.shuffle != nil && len(items) > 1 {
+				c.shuffle.Shuffle(len(items), func(i, j int) { items[i], items[j] = items[j], items[i] })
+			}
+			return meta.SetList(list, items)
+		},
+		Create: func(ctx context.Context, cl client.WithWatch, obj client.Object, opts ...client.CreateOption) error {
+			err := cl.Create(ctx, obj, opts...)
+			if err != nil {
+				c.Failed++
+			} else {
+				c.mut("create", obj)
 			}
 			return err
 		},
-		Create: func(ctx context.Context, cl client.WithWatch, obj client.Object, opts ...client.CreateOption) error {
-			c.mut("create", obj)
-			return cl.Create(ctx, obj, opts...)
-		},
 		Delete: func(ctx context.Context, cl client.WithWatch, obj client.Object, opts ...client.DeleteOption) error {
-			c.mut("delete", obj)
-			return cl.Delete(ctx, obj, opts...)
+			err := cl.Delete(ctx, obj, opts...)
+			if err != nil {
+				c.Failed++
+			} else {
+				c.mut("delete", obj)
+			}
+			return err
 		},
 		DeleteAllOf: func(ctx context.Context, cl client.WithWatch, obj client.Object, opts ...client.DeleteAllOfOption) error {
 			c.mut("deleteAllOf", obj)
 			return cl.DeleteAllOf(ctx, obj, opts...)
 		},
 		Update: func(ctx context.Context, cl client.WithWatch, obj client.Object, opts ...client.UpdateOption) error {
-			c.mut("update", obj)
-			return cl.Update(ctx, obj, opts...)
+			return c.write(ctx, cl, "update", obj, func() error { return cl.Update(ctx, obj, opts...) })
 		},
 		Patch: func(ctx context.Context, cl client.WithWatch, obj client.Object, patch client.Patch, opts ...client.PatchOption) error {
-			if emptyPatch(patch, obj) {
-				c.Noop++
-				return cl.Get(ctx, client.ObjectKeyFromObject(obj), obj)
-			}
-			c.mut("patch", obj)
-			return cl.Patch(ctx, obj, patch, opts...)
+			return c.write(ctx, cl, "patch", obj, func() error { return cl.Patch(ctx, obj, patch, opts...) })
 		},
 		SubResourceCreate: func(ctx context.Context, cl client.Client, sub string, obj client.Object, subObj client.Object, opts ...client.SubResourceCreateOption) error {
 			c.mut("create/"+sub, obj)
 			return cl.SubResource(sub).Create(ctx, obj, subObj, opts...)
 		},
 		SubResourceUpdate: func(ctx context.Context, cl client.Client, sub string, obj client.Object, opts ...client.SubResourceUpdateOption) error {
-			c.mut("update/"+sub, obj)
-			return cl.SubResource(sub).Update(ctx, obj, opts...)
+			return c.write(ctx, cl, "update/"+sub, obj, func() error { return cl.SubResource(sub).Update(ctx, obj, opts...) })
 		},
 		SubResourcePatch: func(ctx context.Context, cl client.Client, sub string, obj client.Object, patch client.Patch, opts ...client.SubResourcePatchOption) error {
-			if emptyPatch(patch, obj) {
-				c.Noop++
-				return cl.Get(ctx, client.ObjectKeyFromObject(obj), obj)
-			}
-			c.mut("patch/"+sub, obj)
-			return cl.SubResource(sub).Patch(ctx, obj, patch, opts...)
+			return c.write(ctx, cl, "patch/"+sub, obj, func() error { return cl.SubResource(sub).Patch(ctx, obj, patch, opts...) })
 		},
 	}
 }
